@@ -288,6 +288,16 @@ def check_rerun(x, N, cfg1, cfg2):
     ea = np.asarray(p.eigenvalues); eb = np.asarray(q.eigenvalues)
     if ea.shape != eb.shape or np.max(np.abs(ea - eb)) > 1e-9:
         bad.append(('class_rerun/MultiTapering/eigenvalues', 'eigenvalues are those of the previous NW/k'))
+    # tapers SUPPLIED to an existing object (attributes e and v) are the ones used from then on
+    from spectrum import dpss
+    v2, e2 = dpss(N, cfg2['NW'], cfg2['k'])
+    r = MultiTapering(x, NW=cfg1['NW'], k=cfg1['k'], method=cfg2['method'], NFFT=cfg1['NFFT'], scale_by_freq=False)
+    r()
+    r.e = e2.copy(); r.v = v2.copy()
+    r()
+    c = np.asarray(r.psd)
+    if c.shape != b.shape or np.max(np.abs(c - b)) > 1e-9 * max(np.max(np.abs(b)), 1e-300):
+        bad.append(('class_rerun/MultiTapering/supplied_tapers', 'after assigning precomputed tapers (e, v) to an object built with NW/k and running again, the PSD is not the one of the supplied tapers'))
     return bad
 
 
